@@ -559,6 +559,12 @@ func (vc *FnVC) checkBackEdge(from, header *ssa.BasicBlock, st *State) {
 		env.phiByValue(phi, iv)
 	}
 	vc.curInstr = nil
+	if vc.unit != nil && !vc.unit.Opts["sweep"] && !vc.inferOnly && li.spec != nil {
+		// vacuity guard: some execution completes an iteration of an annotated loop along this back edge
+		if o := vc.oblige(st, "cover-return", fmt.Sprintf("loop%d/iterates", li.ordinal), "false", "an iteration of the loop can complete under the assumed contracts (must not be UNSAT)"); o != nil {
+			o.Cover = true
+		}
+	}
 	for i, inv := range vc.loopInvariants(li) {
 		t, err := vc.evalBool(env, inv.E)
 		if err != nil {
@@ -770,6 +776,12 @@ func (vc *FnVC) doReturn(st *State, r *ssa.Return) {
 	vc.retVals = append(vc.retVals, rs)
 	if vc.unit == nil {
 		return
+	}
+	if !vc.unit.Opts["sweep"] && !vc.inferOnly {
+		// vacuity guard: this return must be reachable under everything assumed so far (must NOT be unsat)
+		if o := vc.oblige(st, "cover-return", "reachable", "false", "this return is reachable under the assumed contracts (must not be UNSAT)"); o != nil {
+			o.Cover = true
+		}
 	}
 	env := vc.envAt(st, nil)
 	env.results = rs
